@@ -111,7 +111,10 @@ def referrer_kinds(kind: str):
     if kind == "pair":
         return {("r", "x"): {"sig": ["sig", "t2"], "sig-b": ["sig", "s2"]},
                 ("rb", "z"): {"sig": ["sig", "t1"], "sig-b": ["sig", "s1"]}}
-    return {("r", "x"): {"pref-target": ["pref", "d", "a"], "sig": ["sig", "t2"], "slice-of-pref-target": ["slice", ["pref", "d", "a"], [0, 2, None]]},
+    return {("r", "x"): {"pref-target": ["pref", "d", "a"], "sig": ["sig", "t2"], "slice-of-pref-target": ["slice", ["pref", "d", "a"], [0, 2, None]],
+                         # the last two bits of a concatenation whose first part is a reference to the target's port: whatever that
+                         # port is tied to at the end (and however wide that is for an array), they are the bits of t2
+                         "tail-of-cat-with-pref-target": ["slice", ["cat", ["pref", "d", "a"], ["sig", "t2"]], [-2, None, None]]},
             ("rb", "bp"): {"pref-target": ["pref", "d", "bp"], "bun": ["bun", "b4"]}}
 
 
@@ -161,8 +164,37 @@ def complete(kind, model, rng):
     return ops
 
 
-def run_history(rec, kind, hist, sample=False, late_reassign=False):
-    """hist: [(form, port, kindname|None)].  Apply to live objects, export, compare with the final mapping."""
+def look_at(insts):
+    """Read-only observations of everything connected: width, bounds, repr (errors are the observer's business, not the design's)."""
+    from hdl21.elab.helpers.width import width as width_of
+
+    def look(c, depth=0):
+        import hdl21 as _h
+
+        for f in (lambda: width_of(c), lambda: repr(c), lambda: (c.top, c.bot, c.step) if isinstance(c, _h.Slice) else None):
+            try:
+                f()
+            except Exception:
+                pass
+        # (by type: asking a bundle reference for an attribute it does not have CREATES a child reference - not a read-only act)
+        if depth < 4:
+            import hdl21 as h
+
+            if isinstance(c, h.Concat):
+                for sub in c.parts:
+                    look(sub, depth + 1)
+            elif isinstance(c, h.Slice):
+                look(c.parent, depth + 1)
+
+    for i in insts:
+        for c in list(getattr(i, "conns", {}).values()):
+            look(c)
+
+
+def run_history(rec, kind, hist, sample=False, late_reassign=False, observe=False):
+    """hist: [(form, port, kindname|None)].  Apply to live objects, export, compare with the final mapping.
+    observe: after every connection the designer LOOKS at the module (widths and reprs of everything connected): looking is not an
+    operation, and what is built must not depend on it."""
     import hdl21 as h
 
     design = base_design(kind)
@@ -173,7 +205,7 @@ def run_history(rec, kind, hist, sample=False, late_reassign=False):
     for form, port, k in hist:
         e = None if form in ("disconnect", "disconnect!", "badtype", "badtype-replace", "reinstance", "reinstance-mult") else realize(kind, port, k)
         concrete.append([form, port, k, e])
-    case = {"kind": "history", "target": kind, "ops": concrete}
+    case = {"kind": "history", "target": kind, "ops": concrete, "observe": observe}
     built = build.Built()
     built.uid = f"_{next(build._counter)}"
     try:
@@ -248,6 +280,9 @@ def run_history(rec, kind, hist, sample=False, late_reassign=False):
                 d.replace(pname, obj)
             kinds_seen.setdefault(port, []).append(k)
             model[port] = e
+            if observe:
+                rec.count("ops.observed")
+                look_at(mb.insts.values())
         top = mb.finish()
         if late_reassign and kind != "pair" and not any(":" in p and "'pref', 'd'" in str(e) for p, e in model.items()):
             # ... and once more on the finished (not yet elaborated) module: `top.d = <new instance>` displaces the old one
@@ -368,10 +403,23 @@ def run(ctx, rec):
     for kind in ("single", "array", "pair"):
         for _ in range(400 if ctx.quick else 9600):
             cases.append((kind, gen_random(rng, kind, 8 if ctx.quick else 16)))
+    # directed: a referrer holds an expression over a reference to the array's port `a`, whose connection is then replaced by one of
+    # ANOTHER total width (broadcast <-> one chunk per element); with and without looking at the module in between
+    directed = []
+    for ref_kind in ("slice-of-pref-target", "tail-of-cat-with-pref-target"):
+        for k1, k2 in (("sig", "sig-per-elem"), ("sig-per-elem", "sig"), ("cat", "cat-per-elem"), ("cat-per-elem", "slice"), ("sig2", "sig-per-elem")):
+            for form2 in ("connect", "replace", "setattr", "call"):
+                model = {"a": k2, "r:x": ref_kind}
+                directed.append(("array", [("call", "a", k1), ("setattr", "r:x", ref_kind), (form2, "a", k2)] + complete("array", model, rng)))
+    cases += directed
+    rec.extra["directed_histories"] = len(directed)
     if ctx.nshards > 1:
         cases = cases[ctx.shard:: ctx.nshards]
     for i, (kind, hist) in enumerate(cases):
-        run_history(rec, kind, hist, sample=(i % 700 == 3), late_reassign=(i % 5 == 0))
+        run_history(rec, kind, hist, sample=(i % 700 == 3), late_reassign=(i % 5 == 0), observe=(i % 3 == 1))
+        if hist and hist[1:2] and hist[1][1] == "r:x" and len(hist) > 2 and hist[2][1] == "a" and i % 3 != 1:
+            run_history(rec, kind, hist, observe=True)
+
     rec.exhaustive = False
     rec.extra["kind_sequences_enumerated"] = len(seqs)
 
@@ -384,4 +432,4 @@ def replay(ctx, rec, case):
     # re-install the concrete expressions
     kind = case["target"]
     hist = [(f, p, k) for f, p, k, _ in case["ops"]]
-    run_history(rec, kind, hist, sample=True)
+    run_history(rec, kind, hist, sample=True, observe=bool(case.get("observe")))
